@@ -315,7 +315,7 @@ func checkC17(c *Ctx) {
 			if okAll {
 				id := fmt.Sprintf("join%d", i)
 				srcOf[id] = src
-				recs = append(recs, map[string]interface{}{"id": id, "out1": outLines(strings.Join(parts, "\n")), "out2": outLines(whole.Out), "err1": false, "err2": false})
+				recs = append(recs, map[string]interface{}{"id": id, "out1": nonBlank(outLines(strings.Join(parts, "\n"))), "out2": nonBlank(outLines(whole.Out)), "err1": false, "err2": false})
 			}
 		}
 		// (b) files with inline data: inserting an unrelated data-free statement only inserts its block
@@ -346,7 +346,7 @@ func checkC17(c *Ctx) {
 			if exp != nil {
 				id := fmt.Sprintf("ins%d", i)
 				srcOf[id] = srcAfter
-				recs = append(recs, map[string]interface{}{"id": id, "out1": outLines(*exp), "out2": outLines(after.Out), "err1": false, "err2": false})
+				recs = append(recs, map[string]interface{}{"id": id, "out1": nonBlank(outLines(*exp)), "out2": nonBlank(outLines(after.Out)), "err1": false, "err2": false})
 			}
 		}
 	}
@@ -380,7 +380,7 @@ func checkC17(c *Ctx) {
 		if okAll {
 			id := fmt.Sprintf("fmt%d", i)
 			srcOf[id] = strings.Join(stmts, "")
-			recs = append(recs, map[string]interface{}{"id": id, "out1": outLines(strings.Join(parts, "\n")), "out2": outLines(whole.Out), "err1": false, "err2": false})
+			recs = append(recs, map[string]interface{}{"id": id, "out1": nonBlank(outLines(strings.Join(parts, "\n"))), "out2": nonBlank(outLines(whole.Out)), "err1": false, "err2": false})
 		}
 	}
 	bad, states, ok := runPairCases(c, "SameOut", "same.ndjson", recs)
@@ -523,4 +523,16 @@ func dataSectionStart(out string, nt, texts []Top) int {
 		return len(out)
 	}
 	return best
+}
+
+// nonBlank drops empty lines: how many blank lines separate the blocks of two statements is
+// layout, not part of the independence property.
+func nonBlank(ls []string) []string {
+	out := []string{}
+	for _, l := range ls {
+		if strings.TrimSpace(l) != "" {
+			out = append(out, l)
+		}
+	}
+	return out
 }
